@@ -150,13 +150,19 @@ def r3(ctx, fs):
     env.param_roles(['itm', 'exprs'])
     env.local_role('ctx', lambda n, i: (n.get('t') or '') == 'ratio::context')
     fl = [n for n in f.nodes() if n.get('k') == 'CXXForRangeStmt' and 'get_fields' in show(canon(n['slots']['range'], env, subst=False)) and len(n['slots']['var'].get('bindings') or ()) == 2]
-    if len(fl) != 1:
+    if not fl:
         raise AnalysisBroken('%s: the loop over the fields of the class (default initialisation) was not found' % f.id)
-    fname = fl[0]['slots']['var']['bindings'][0]
+
+    def is_default_store(t):
+        # an emplace into itm.exprs under the name of the field the (a) field loop is visiting
+        for l in fl:
+            if any(x is t for x in walk(l['slots']['body'])):
+                return canon(t, env, subst=False)[3] == l['slots']['var']['bindings'][0]
+        return False
     g = cfg.Graph(f)
     sup = g.events(lambda t: t.get('callee_name') == 'ratio::constructor::invoke')
     asg = g.events(lambda t: t.get('k') == 'CXXMemberCallExpr' and (t.get('callee_name') or '').endswith('::emplace') and 'init_list' in show(canon(t, env, subst=False)) and '(. itm exprs)' in show(canon(t, env, subst=False)))
-    dfl = g.events(lambda t: t.get('k') == 'CXXMemberCallExpr' and (t.get('callee_name') or '').endswith('::emplace') and '(. itm exprs)' in show(canon(t, env, subst=False)) and any(x is t for x in walk(fl[0]['slots']['body'])) and canon(t, env, subst=False)[3] == fname)
+    dfl = g.events(lambda t: t.get('k') == 'CXXMemberCallExpr' and (t.get('callee_name') or '').endswith('::emplace') and '(. itm exprs)' in show(canon(t, env, subst=False)) and is_default_store(t))
     body = g.events(lambda t: (t.get('callee_name') or '').endswith('statement::execute'))
     facts = {
         'supertype constructors before the assignment list': bool(sup and asg) and g.never_after(asg, sup),
